@@ -474,6 +474,38 @@ func checkC05(rc *Run) error {
 		return machinery("too many generated streams are not read back as generated (%d of %d): %s", unstable, judged+unstable, b.String())
 	}
 	rc.Sample(M{"stream": strings.Join(cases[len(cases)/2].Text, "\n"), "rows": len(cases[len(cases)/2].Rows), "comments": cases[len(cases)/2].Comments})
+	// ---- texts the generator of Gen_Yaml does not write (spellings whose presentation the yaml library cannot keep): whatever
+	// happens to their presentation, the DATA - every node's resolved type and value - is the input's, and the output is a fixpoint
+	{
+		xdir := filepath.Join(rc.Out, "extra")
+		os.MkdirAll(xdir, 0o755)
+		probe := `[.. | [tag, (select(kind == "scalar") | .)]]`
+		for _, xc := range []struct{ name, text string }{
+			{"folded-with-a-more-indented-line", "a: >\n  x\n   y\nz: 1\n"},
+			{"folded-keep-with-trailing-blank-lines", "a: >+\n  x\n\nz: 1\n"},
+			{"folded-plain", "a: >\n  x\n  y\nz: 1\n"},
+			{"empty-value-in-a-flow-map", "{a: , b: 1}\n"},
+			{"empty-value-in-a-flow-sequence-entry", "[c: , 2]\n"},
+			{"empty-key", "?\n: 1\n"},
+			{"timestamp-in-a-flow-sequence", "[2001-12-14T21:59:43Z, a]\n"},
+			{"timestamp-in-a-block-map", "t: 2001-12-14T21:59:43Z\n"},
+			{"url-in-a-flow-sequence", "[http://x.y/z, 1:30]\n"},
+		} {
+			d0 := runProc(xdir, []byte(xc.text), "-o=json", "-I0", probe)
+			p1 := runProc(xdir, []byte(xc.text), ".")
+			if d0.Code != 0 || p1.Code != 0 {
+				continue // not a text yq reads: nothing to preserve
+			}
+			d1 := runProc(xdir, []byte(p1.Stdout), "-o=json", "-I0", probe)
+			p2 := runProc(xdir, []byte(p1.Stdout), ".")
+			concrete := M{"machine": "YamlDoc", "concrete": M{"argv": []string{"yq", "."}, "stdin": xc.text}}
+			if d1.Code != 0 || d1.Stdout != d0.Stdout {
+				rc.Report("extra-data:"+xc.name, fmt.Sprintf("yq . on %q prints %q: types and values were %s and are %s (%s)", xc.text, p1.Stdout, strings.TrimSpace(d0.Stdout), strings.TrimSpace(d1.Stdout), firstLine(d1.Stderr)), concrete)
+			} else if p2.Code != 0 || p2.Stdout != p1.Stdout {
+				rc.Report("extra-not-a-fixpoint:"+xc.name, fmt.Sprintf("yq . on its own output %q prints %q", p1.Stdout, p2.Stdout), concrete)
+			}
+		}
+	}
 	rc.Set("states", res.Distinct)
 	rc.Set("transitions", res.Generated)
 	rc.Set("traces_validated_against_impl", judged)
